@@ -500,7 +500,7 @@ theorem attrCtx_init (B : List PS) : AttrCtx false .init B := by
 theorem attrStep_body (primary : Bool) (cur0 : PS) (B : List PS) (nm r : List Char) :
     attrStep primary cur0 B ('@' :: (attrName nm ++ '(' :: r)) =
       .ok [.startAttr nm] false
-        (if primary then .body .ab .startOrNl :: .init :: cur0 :: B else .body .ab .startOrNl :: cur0 :: B) r := by
+        (.body .ab .startOrNl :: (if primary then .init :: cur0 :: B else cur0 :: B)) r := by
   unfold attrStep
   rw [lexAttr_body]
   cases primary <;> rfl
@@ -558,5 +558,119 @@ theorem implicit_printed {n : Nat} (ih : RH n) (nm : List Char) (v : Value) (hvs
   rw [← obsB_bodyItems v hve, obsB_fst nm v]
   have := look_body (ch := fun _ => true) nm v ((ro f0 [.afterAttr] more).1.map Prod.fst)
   simpa using this
+
+end SwimVerif.ReconEq
+
+namespace SwimVerif.ReconEq
+open SwimVerif.Recon
+
+/-- The events of a run start with what a big-step lemma says, whatever the fuel beyond its bound. -/
+theorem run_events_prefix {S S' : List PS} {inp rest : List Char} {O : List (Event × Bool)} {K : Nat}
+    (h : Run S inp O S' rest K) (F : Nat) (hF : K ≤ F) :
+    ∃ X, (runFrom F S inp).1.map (·.ev) = O.map Prod.fst ++ X := by
+  obtain ⟨k, hk, hr⟩ := h
+  obtain ⟨f0, hf0⟩ : ∃ f0, F = k + f0 := ⟨F - k, by omega⟩
+  refine ⟨(ro f0 S' rest).1.map Prod.fst, ?_⟩
+  rw [← map_obsOf_fst]
+  have := congrArg (fun p => p.1.map Prod.fst) (hr f0)
+  rw [hf0]
+  simpa [ro, pre] using this
+
+theorem lexPrimM_expChars (st : Bool) (neg : Bool) (m : Nat) (e : Int) (hc : m % 10 ≠ 0 ∨ (m = 0 ∧ e = 0))
+    {rest : List Char} (hd : TokEnd rest) (hr : st = true → rest ≠ []) :
+    lexPrimM st (expChars (.fin neg m e) ++ rest) = .ok (.num (.float (.fin neg m e))) rest := by
+  obtain ⟨ev, he, hv⟩ := lexPrimM_of_lexPrim st (lexPrim_expChars neg m e hc hd) hd hr
+  rw [he]
+  congr 1
+  cases ev <;> simp [primValue] at hv
+  rename_i n
+  cases n <;> simp [numValue] at hv
+  subst hv; rfl
+
+theorem expChars_head (neg : Bool) (m : Nat) (e : Int) (hc : m % 10 ≠ 0 ∨ (m = 0 ∧ e = 0)) :
+    ∃ c t, expChars (.fin neg m e) = c :: t ∧ primStart c = true := by
+  have hl := lexPrim_expChars neg m e hc TokEnd.nil
+  rw [List.append_nil] at hl
+  cases hx : expChars (.fin neg m e) with
+  | nil => rw [hx] at hl; simp [lexPrim] at hl
+  | cons c t =>
+    rw [hx] at hl
+    refine ⟨c, t, rfl, ?_⟩
+    rcases lexPrim_head hl with h | h | h | h | h | h | h <;> simp [primStart, h]
+
+theorem popAfterAttr_base (primary : Bool) (cur0 : PS) (B : List PS) :
+    popAfterAttr (if primary then .init :: cur0 :: B else cur0 :: B) = .afterAttr :: attrBase primary cur0 B := by
+  cases primary <;> rfl
+
+/-- One printed attribute, in any of the three contexts an `@` can stand in. -/
+theorem attr_one {n : Nat} (ih : RH n) (nm : List Char) (v : Value) (hvs : v.size + 1 ≤ n) (hvw : v.wf = true)
+    (st : Style) (i : Nat) (primary : Bool) (cur0 : PS) (B : List PS) (hctx : AttrCtx primary cur0 B)
+    (more : List Char) (hm : more ≠ []) (hmore : ∀ x ∈ more.head?, isIdentChar x = false ∧ x ≠ '(') :
+    Run (cur0 :: B) ('@' :: (attrName nm ++ (printA st i v ++ more)))
+      ((.startAttr nm, implicitBody v) :: (obsB v ++ [(.endAttr, false)]))
+      (.afterAttr :: attrBase primary cur0 B) more (4 * v.size + 8) := by
+  by_cases hve : v = .extant
+  · subst hve
+    cases more with
+    | nil => exact absurd rfl hm
+    | cons x xs =>
+      obtain ⟨hx1, hx2⟩ := hmore x (by simp)
+      have hstep := hctx (attrName nm ++ x :: xs)
+      rw [attrStep_nobody primary cur0 B nm xs hx1 hx2] at hstep
+      simp only [printA, List.nil_append]
+      have hr := (Run.of_step hstep).mono (show 1 ≤ 4 * Value.extant.size + 8 by omega)
+      have hst : (if primary then PS.afterAttr :: cur0 :: B else PS.afterAttr :: B)
+          = PS.afterAttr :: attrBase primary cur0 B := by cases primary <;> rfl
+      rw [hst] at hr
+      exact hr.cast rfl (by simp [obsEmits, emits, obsOf, implicitBody, obsB])
+  · by_cases hfl : ∃ x, v = .float x
+    · obtain ⟨x, rfl⟩ := hfl
+      cases x with
+      | nan => simp [Value.wf, Flt.isCanon] at hvw
+      | inf b => simp [Value.wf, Flt.isCanon] at hvw
+      | fin fneg fm fe =>
+        have hcan := Flt.canon_cases (by simpa [Value.wf] using hvw)
+        have hte : TokEnd (')' :: more) := by intro y hy; simp at hy; subst hy; decide
+        obtain ⟨c, t, hc, hps⟩ := expChars_head fneg fm fe hcan
+        have hlex := lexPrimM_expChars true fneg fm fe hcan hte (by simp)
+        -- the two steps inside the parentheses, on any stack
+        have inner : ∀ X : List PS, Run (.body .ab .startOrNl :: X) (expChars (.fin fneg fm fe) ++ ')' :: more)
+            [(.num (.float (.fin fneg fm fe)), false), (.endAttr, false)] (popAfterAttr X) more 2 := by
+          intro X
+          have h1 : step (.body .ab .startOrNl :: X) (expChars (.fin fneg fm fe) ++ ')' :: more)
+              = .ok [.num (.float (.fin fneg fm fe))] false (.body .ab .afterValue :: X) (')' :: more) := by
+            rw [hc] at hlex ⊢
+            simp only [List.cons_append] at hlex ⊢
+            rw [step_value ⟨.ab, Or.inl rfl⟩ X (okStart_of_prim hps)]
+            simp [valueStep, hlex, afterOf]
+          have h2 := step_close_after .ab true X (S' := popAfterAttr X) rfl more
+          simp only [↓reduceIte, Kind.close] at h2
+          exact ((Run.of_step h1).trans (Run.of_step h2)).cast rfl (by simp [obsEmits, emits, obsOf, kindEndEvent])
+        have hdec : isImplicitRecord (expChars (.fin fneg fm fe) ++ ')' :: more) = false := by
+          obtain ⟨X, hX⟩ := run_events_prefix (inner [.init]) (12 * (expChars (.fin fneg fm fe) ++ ')' :: more).length + 8) (by omega)
+          unfold isImplicitRecord
+          simp only [show Generated.ReconEq.implicitByStructure = true by decide, ↓reduceIte]
+          rw [hX]
+          simp [implicitLook]
+        have hstep := hctx (attrName nm ++ '(' :: (expChars (.fin fneg fm fe) ++ ')' :: more))
+        rw [attrStep_body] at hstep
+        have hall := (Run.of_step hstep).trans (inner _)
+        rw [popAfterAttr_base] at hall
+        simp only [printA, List.cons_append, List.append_assoc, List.nil_append]
+        refine (hall.mono (by simp [Value.size])).cast rfl ?_
+        simp [obsEmits, emits, obsOf, hdec, implicitBody, obsB, obsV]
+    · have hnf : ∀ f, v ≠ .float f := fun f hf => hfl ⟨f, hf⟩
+      rw [printA_body' st i hvw hve hnf]
+      simp only [List.cons_append, List.append_assoc, List.nil_append]
+      have hbs := bodyItems_size v
+      have hstep := hctx (attrName nm ++ '(' :: (printItems st i i true false (bodyItems v) ++ ')' :: more))
+      rw [attrStep_body] at hstep
+      have hit := ih.items (bodyItems v) (by omega) (bodyItems_wf hvw) st .ab i i false
+        (if primary then .init :: cur0 :: B else cur0 :: B) _ more false [] [] White.nil (Or.inl Spaces.nil)
+        (by simp only [endStack]; rw [popAfterAttr_base]) (fun _ => bodyItems_notSoleExtant hve) (by intro h; cases h)
+      simp only [Bool.false_eq_true, ↓reduceIte, List.nil_append, Kind.close] at hit
+      have hdec := implicit_printed ih nm v hvs hvw hve hnf st i more hm
+      refine (((Run.of_step hstep).trans hit).mono (by omega)).cast rfl ?_
+      simp [obsEmits, emits, obsOf, hdec, obsB_bodyItems v hve, kindEndEvent]
 
 end SwimVerif.ReconEq
